@@ -1,6 +1,7 @@
 package sim
 
 import (
+	"errors"
 	"fmt"
 	"html/template"
 	"io"
@@ -110,6 +111,8 @@ func rowClassGen(y Yielder, log *EventLog) func(int, interface{}) template.HTMLA
 		return template.HTMLAttr("r" + strconv.Itoa(n%2))
 	}
 }
+
+var errCallbackPanicked = errors.New("sim: a user callback panicked during this render")
 
 type renderer interface {
 	Render() (string, error)
@@ -253,6 +256,12 @@ func (w *World) autoStyle(spec RenderSpec) string {
 func (w *World) Render(spec RenderSpec, sw io.Writer) (out string, err error, pi *PanicInfo) {
 	defer func() {
 		if r := recover(); r != nil {
+			if _, ok := r.(SimPanic); ok {
+				// the scripted panic of a user callback, recovered by the caller
+				w.probe("callback_panic_recovered_by_the_caller")
+				out, err = "", errCallbackPanicked
+				return
+			}
 			pi = capturePanic(r)
 		}
 	}()
